@@ -20,7 +20,7 @@ from .. import cfg
 from .. import inline
 from ..facts import call_name, dotted, kwarg, norm
 from ..linters import Linters
-from ..util import Implication, func_paths, is_call_named, is_caught
+from ..util import expand_locals, Implication, func_paths, is_call_named, is_caught
 
 PKG = "src.linters.magic_numbers"
 RULE = f"{PKG}.linter.MagicNumberRule"
@@ -226,6 +226,25 @@ def check(run, ctx):
         else:
             why = norm(wk["early"][0]) if wk["early"] else (norm(wk["loop"].test) if not wk["to_root"] else "conditional step")
             run.finding(M10, f"{mod}.{fn}", f"walk-cut:{why}", f"{fn}: the ancestor walk can stop before the root (`{why}`): a literal nested in a block, closure or call inside the exempt item is reported although the item is exempt", f"{f.module.rel}:{(wk['early'][0] if wk['early'] else wk['loop']).lineno}")
+    M12 = run.rule("M12", "the small-integer exemptions for range() and enumerate() apply the same bounds test (0 <= value <= max_small_integer, both ends inclusive)", floor=1,
+                   decides="a literal equal to max_small_integer is exempt in enumerate() exactly as it is in range()")
+    def bounds_form(fn_name):
+        g = next((x for x in repo.funcs_in(f"{PKG}.context_analyzer.") if x.name == fn_name), None)
+        if g is None:
+            return None, None
+        forms = []
+        for n in inline.flat_nodes(repo, g):
+            if isinstance(n, ast.Compare) and any("max_small" in ast.unparse(expand_locals(g.node, c)) or "max_small" in ast.unparse(c) for c in [n.left] + n.comparators):
+                forms.append("|".join(type(o).__name__ for o in n.ops) + ":" + ("range" if any(isinstance(x, ast.Call) and call_name(x) == "range" for c in n.comparators for x in ast.walk(c)) else "plain"))
+        return sorted(set(forms)), g
+    fr_, g_r = bounds_form("is_small_integer_in_range")
+    fe_, g_e = bounds_form("is_small_integer_in_enumerate")
+    run.require(g_r is not None and g_e is not None and fr_, "the two small-integer predicates (or their bounds test) were not found")
+    if fr_ == fe_ and all(f_.startswith("LtE|LtE") or f_.startswith("GtE|GtE") for f_ in fr_):
+        run.ok(M12, "range/enumerate bounds", f"both use {fr_}")
+    else:
+        run.finding(M12, "is_small_integer_in_enumerate", f"bounds:{fe_}<>{fr_}", f"the enumerate() exemption tests its bound as {fe_}, the range() exemption as {fr_}: a literal sitting exactly on max_small_integer is exempt in one call and reported in the other", g_e.loc)
+
     M11 = run.rule("M11", "the UPPER_CASE-name predicates of the Python and TypeScript exemptions are siblings: both accept a constant name that starts with underscores (`_TIMEOUT_SECONDS`)", floor=2,
                    decides="a private UPPER_CASE constant definition is exempt in both languages")
     for mod, fn in (("context_analyzer", "_is_constant_name"), ("typescript_analyzer", "_is_uppercase_constant")):
